@@ -5,11 +5,11 @@ MODEL_SHOW = "model_obs"
 DISAGREE_IS_VIOLATION = True   # observables are exactly what the property fixes
 HARNESS_TIMEOUT = 900
 RULE = ("fixed: every (service type gate/chat/room/unknown) x (method behaviour echo, fail, panic, never completes, "
-        "notify-shaped, unknown method, unknown group, undecodable payload, successful result the serializer cannot encode (+Inf float)) combination once as request and once as notification, "
+        "notify-shaped, unknown method, unknown group, undecodable payload, successful result the serializer cannot encode (+Inf float), successful result whose encoding PANICS (user MarshalJSON dereferencing nil), asynchronous completion (echo / unencodable result completed in a later turn of the service)) combination once as request and once as notification, "
         "for an unbound routing key and for keys naming chat-1, chat-2, an instance of the wrong type, a missing instance; the six "
         "malformed routes; connect-while-the-front-is-busy followed at once by forwarded requests (F12); the same request id in flight "
-        "twice to different instances; close with requests pending at a back-end; id 2^32-1; SESSION-ID REUSE: every connection is handed an explicit numeric session id through the allocator hook (largest id 2^32-1, the wrap that skips 0, small ids), a connection parks a request at a never-answering back-end handler and closes, a new connection receives the recycled id and uses the same request id, then the time-out arrives; PIPELINED BURST WITH A NON-READING CLIENT: the client stops reading for 1.5 s and pipelines 11000 front-local + 1500 forwarded requests with 4 kB responses (thorough: up to 13000 x 8 kB and 11000 forwarded), >9999 responses pending on one connection (the run tags whether the send queue actually filled: it did), then reads: exactly one response per request id. random: 1-3 connections, 2-60 pipelined "
-        "client actions (request 50%, notify 18%, set-routing-key 20%, advance clock past the 30 s forward time-out 5%, close 4%), routes "
+        "twice to different instances; close with requests pending at a back-end; id 2^32-1; PROTOCOL STATE MACHINE: a second Handshake packet, its ack and heartbeats at any moment of an established connection, with a forwarded request parked / a relayed reply / an asynchronous completion / a time-out produced before the ack, and data packets sent in the handshake state (ignored by the server); SESSION-ID REUSE: every connection is handed an explicit numeric session id through the allocator hook (largest id 2^32-1, the wrap that skips 0, small ids), a connection parks a request at a never-answering back-end handler and closes, a new connection receives the recycled id and uses the same request id, then the time-out arrives; PIPELINED BURST WITH A NON-READING CLIENT: the client stops reading for 1.5 s and pipelines 11000 front-local + 1500 forwarded requests with 4 kB responses (thorough: up to 13000 x 8 kB and 11000 forwarded), >9999 responses pending on one connection (the run tags whether the send queue actually filled: it did), then reads: exactly one response per request id. random: 1-3 connections, 2-60 pipelined "
+        "client actions (request 50%, notify 18%, set-routing-key 20%, advance clock past the 30 s forward time-out 3%, re-handshake / ack / heartbeat 2%, close 4%), routes "
         "drawn over all types/behaviours incl. malformed, ids incl. duplicates and varint boundaries. Connections get fresh, recycled (50% when a closed one exists) or - rarely - live-clashing (ignored) session-id slots; half of the closes are preceded by a request parked at a silent back-end handler. Every case ends with a drain, a clock "
         "advance and a sentinel round trip on every open connection. Non-trivial = at least one response was received; distinct = distinct op lists.")
 TRUSTED_BASE = [
@@ -26,6 +26,9 @@ ASSUMPTIONS = [
     "a client frame is processed while its session exists (frames racing with the removal of their own session are C05's subject: Process(nil, msg))",
     "handlers complete at most once (completion twice = C13 / F11) and complete synchronously or never in the harness; a front-local handler that keeps its completion forever is not answered (user code; excluded by `expected <> None`)",
     "theorem C02_relayed_unchanged needs `calm`: the clock crosses a forward deadline only when no reply is in flight; otherwise the one response may be the time-out error (C02_one_response / C02_source cover that case)",
+    "data packets a client sends between a re-handshake and its ack never become requests (session.go processPacket ignores them while status < working): Corr.prep removes them from the history; the harness does send them",
+    "a connection in the handshake state cannot answer the driver's sentinel: its drain waits until its send queue is empty and the client stopped receiving (1 ms polls)",
+    "asynchronous completion is exercised for echo and for an unencodable result; a front-local handler that completes asynchronously with a result whose encoding PANICS is not (by reading: the panic ends in sche.doTask's recover and the request stays unanswered)",
     "only the JSON client serializer is exercised (the proto serializer is a process-wide setting that would change the argument decoding of every harness method)",
     "time-outs are crossed with the virtual clock and an explicit expiry scan (VerifCheckExpired); the 1 s real timer that normally triggers the scan is not waited for",
 ]
